@@ -33,7 +33,7 @@ type hdr = model.C12Hdr
 // violation classes owned by this package (the trace-checker classes live in model/c12_fsm.go)
 const (
 	clsHonestRejected         = "honest-child-rejected"
-	clsZeroWaitHonestRejected = "zero-wait-honest-clear-rejected" // the builder clears a failed proposal whose switch round == window end; the verifier demands the switch
+	clsZeroWaitHonestRejected = "zero-wait-honest-clear-rejected"        // the builder clears a failed proposal whose switch round == window end; the verifier demands the switch
 	clsBuilderAtWindowEnd     = "builder-approval-counted-at-window-end" // quorum only with a window-end approval that the BUILDER itself added
 )
 
